@@ -2,9 +2,13 @@
 from props import aof_common
 
 THEOREMS = ["Slock.C16.C16_crash_partial", "Slock.C16.C16_steps_shape", "Slock.C16.C16_content_partial", "Slock.C16.C16_content_example",
-            "Slock.C16.C16_crash_fails", "Slock.C16.C16_crash_between_renames_fails", "Slock.Aof.relevant_applyOps", "Slock.Aof.replay_kept"]
+            "Slock.C16.C16_crash_fails", "Slock.C16.C16_crash_between_renames_fails", "Slock.Aof.relevant_applyOps", "Slock.Aof.replay_kept",
+            "Slock.C16.C16_keep_aged_seconds", "Slock.C16.C16_keep_aged_minutes", "Slock.C16.C16_keep_rule_update_record",
+            "Slock.C16.C16_keep_aged_example", "Slock.Aof.checkLockedEqual_sec", "Slock.Aof.checkLockedEqual_min"]
 FINISH = {"level": "proof", "assumptions": [
-    "compaction = Model/Aof.lean compactionSteps (writeSteps ++ clearSteps); tied to aof.go findRewriteAofFiles / loadRewriteAofFiles / clearRewriteAofFiles by the aofrewrite differential: the real functions run on a scratch dir with a real LockDB (keep-rule = real HasLock), directory snapshot after each os.Remove / os.Rename of clearRewriteAofFiles (replayed call by call in-package; cross-checked against the real function's end state)",
+    "compaction = Model/Aof.lean compactionSteps (writeSteps ++ clearSteps) with keep = keepRule now view (HasLock on the command the callback builds: Expried := loadRemaining(now), CheckLockedEqual / checkLockedCountEqual = the regenerated kernels Slock.Gen.K); tied to aof.go findRewriteAofFiles / loadRewriteAofFiles / clearRewriteAofFiles by the aofrewrite differential: the real functions run on a scratch dir against a real LockDB on a virtual clock, with records of age 0-300 s (0-600 s minute unit) produced by the real AofChannel.Push from real holds; the keep observation is the content of the real rewrite.aof.tmp; directory snapshot after each os.Remove / os.Rename of clearRewriteAofFiles (replayed call by call in-package; cross-checked against the real function's end state)",
+    "restart mode (monitor): seeded histories through a real SLock + real Aof, a REAL compaction on the live node, fresh SLock on copies of the directory before/after; compared through the reference replay recover (Slock.Aof.recover, diffed against the harness oracle) and through the real recovery of both directories",
+    "size-triggered rotation in the middle of a history is not exercised: loadRewriteAofFiles filters expired records against time.Now(), so compactions are run where the virtual clock equals the real one (end of the history)",
     "file names in parsed form (parseName = the grammar FindAofFiles accepts); the wrap-around index branch of FindAofFiles is modelled as an error",
     "C16_content for all directories is NOT proved: proved at record-list level under the two stated engine hypotheses (C16_content_partial), on a witness by evaluation, and checked against the real code by the differential + monitor",
     "granularity of the write phase: one write per file (the real writer flushes in buffer-size chunks); all of them precede the first remove"]}
@@ -12,6 +16,10 @@ FINISH = {"level": "proof", "assumptions": [
 
 def classify(op, impl):
     t = op.split(" ", 2)
+    if t[0] == "aofkeep":
+        rec = op.rsplit(" ", 1)[1]
+        b = bytes.fromhex(rec.split("/")[0])
+        return ("aofkeep", impl, b[2], b[19] & 2, (b[59] | b[60] << 8) & 0x4440, rec.endswith("/n"), min((int(t[1]) - int.from_bytes(b[11:19], "little")) // 30, 20))
     return (t[0], impl.count("|"), impl.count(","), impl.endswith("err"))
 
 
@@ -24,9 +32,14 @@ def run(ctx):
     exe = ctx.build_harness("server")
     if not exe:
         return
-    n = 40 if ctx.tier == "quick" else 1500
+    n = 60 if ctx.tier == "quick" else 1500
     seeds = [ctx.seed] if ctx.tier == "quick" else [ctx.seed + i for i in range(3)]
-    aof_common.run_mode(ctx, exe, "aofrewrite", n, ["C16:"], classify, "M-AOF compaction steps / recoverDir vs real rewrite + FindAofFiles + LoadAofFiles", seeds=seeds)
-    ctx.cov["rule"] = ("per case: optional rewrite.aof + 1-3 closed append files + the current one, written by the real writer, records referring to live holds of a real "
-                       "LockDB (kept) or to unknown keys / databases (dropped), some with values; real loadRewriteAofFiles; every file-system mutation of "
-                       "clearRewriteAofFiles snapshotted and recovered by the real FindAofFiles + LoadAofFiles; distinct = (op, #snapshots, #records, error)")
+    aof_common.run_mode(ctx, exe, "aofrewrite", n, ["C16:"], classify, "M-AOF keep-rule / compaction steps / recoverDir vs real rewrite + FindAofFiles + LoadAofFiles",
+                        seeds=seeds, stats_key="aofrewrite")
+    aof_common.run_mode(ctx, exe, "restart", 50 if ctx.tier == "quick" else 600, ["C16:"], None, "Slock.Aof.recover vs the harness's reference replay",
+                        seeds=seeds, diff_modes=["aofjournal"], stats_key="restart")
+    ctx.cov["rule"] = ("aofrewrite, per case: 2-5 real holds (seconds/minutes/unlimited/ms; with/without value) taken and updated (flag 0x02) in the virtual past; 1-3 journal records per hold "
+                       "by the real Push at a later second (age 0-300 s, minutes 0-600 s), update flag on/off, value none/current/stale, UNLOCK records, unknown keys/LockIds; written by the real "
+                       "writer into optional rewrite.aof + 1-3 closed append files; real loadRewriteAofFiles at virtual now = real now; every file-system mutation of clearRewriteAofFiles "
+                       "snapshotted and recovered by the real FindAofFiles + LoadAofFiles; distinct(aofkeep) = (kept, type, update flag, unit, value?, age bucket 30 s). "
+                       "restart: see c07a; coverage['distribution'] has the generated counts (aged / update-flag records, compactions)")
